@@ -340,7 +340,9 @@ func genSubject(rng *rand.Rand, e *elem) {
 			// text that looks like a CN attribute: must not split there.
 			v = v + "\\,CN=decoy" + randFrom(rng, plainChars, 1, 4)
 		case 1:
-			v = v + "\\+" + randFrom(rng, plainChars, 1, 4)
+			// escaped plus followed by CN-looking text: one value, not a
+			// second attribute of a multi-valued RDN
+			v = v + "\\+CN=decoy" + randFrom(rng, plainChars, 1, 4)
 		case 2:
 			v = "cn=" + v // '=' inside a value is legal unescaped
 		}
@@ -367,7 +369,7 @@ func genSubject(rng *rand.Rand, e *elem) {
 		e.cnClass = "escaped"
 		e.cn = dnPlainValue(rng) + []string{"\\,", "\\+", "\\\"", "\\\\", "\\3D"}[rng.IntN(5)] + randFrom(rng, plainChars, 1, 5)
 	case cls < 6:
-		// multi-valued RDN (CN=x+OU=y): observed, not asserted.
+		// multi-valued RDN (CN=x+OU=y / OU=y+CN=x): the CN is x.
 		e.cnClass = "multirdn"
 		e.cn = dnPlainValue(rng)
 	default:
@@ -376,7 +378,13 @@ func genSubject(rng *rand.Rand, e *elem) {
 	if e.cnClass != "absent" {
 		cnRDN := cnKey + "=" + e.cn
 		if e.cnClass == "multirdn" {
-			cnRDN += "+OU=" + randFrom(rng, plainChars, 1, 6)
+			// RFC 4514 multi-valued RDN: attribute=value pairs joined by an
+			// unescaped '+'; the CN is one of them, in either position.
+			if rng.IntN(2) == 0 {
+				cnRDN += "+OU=" + randFrom(rng, plainChars, 1, 6)
+			} else {
+				cnRDN = "OU=" + randFrom(rng, plainChars, 1, 6) + "+" + cnRDN
+			}
 		}
 		pos := rng.IntN(len(rdns) + 1)
 		switch rng.IntN(3) {
